@@ -14,27 +14,31 @@ work=$(mktemp -d /tmp/gocv-bounded.XXXXXX); trap 'rm -rf "$work"' EXIT
   for f in /verif/bounded/*_test.go; do
     [ $first -eq 1 ] || echo ','
     first=0
-    dir=compress/flate; [ "$(basename $f)" = huffman_test.go ] && dir=compress/flate/internal/huffman; [ "$(basename $f)" = hdrwrite_test.go ] && dir=compress/flate/internal/deflate
+    dir=compress/flate; [ "$(basename $f)" = huffman_test.go ] && dir=compress/flate/internal/huffman; [ "$(basename $f)" = hdrwrite_test.go ] && dir=compress/flate/internal/deflate; [ "$(basename $f)" = lz77_test.go ] && dir=compress/flate/internal/deflate
     printf '"%s/%s/zz_bounded_%s":"%s"' "$repo" "$dir" "$(basename $f)" "$f"
   done
   echo '}}'
 } > $work/overlay.json
 if [ "$tier" = thorough ]; then
-  export VERIF_BOUNDED_COMPLETE_SYMS=30 VERIF_BOUNDED_INCOMPLETE_SYMS=6 VERIF_BOUNDED_RANDOM=3000000 VERIF_BOUNDED_HEADERS=150000 VERIF_BOUNDED_PATTERNS=600 VERIF_BOUNDED_HISTOGRAMS=2000000 VERIF_BOUNDED_BIGCOUNTS=1 VERIF_BOUNDED_WHEADERS=150000 VERIF_BOUNDED_SPLIT_BLOCKS=60000
+  export VERIF_BOUNDED_COMPLETE_SYMS=30 VERIF_BOUNDED_INCOMPLETE_SYMS=6 VERIF_BOUNDED_RANDOM=3000000 VERIF_BOUNDED_HEADERS=150000 VERIF_BOUNDED_PATTERNS=600 VERIF_BOUNDED_HISTOGRAMS=2000000 VERIF_BOUNDED_BIGCOUNTS=1 VERIF_BOUNDED_WHEADERS=150000 VERIF_BOUNDED_SPLIT_BLOCKS=60000 VERIF_BOUNDED_LZ77=40000
   to=1500s
 else
-  export VERIF_BOUNDED_COMPLETE_SYMS=${VERIF_BOUNDED_COMPLETE_SYMS:-30} VERIF_BOUNDED_INCOMPLETE_SYMS=${VERIF_BOUNDED_INCOMPLETE_SYMS:-4} VERIF_BOUNDED_RANDOM=${VERIF_BOUNDED_RANDOM:-100000} VERIF_BOUNDED_HEADERS=${VERIF_BOUNDED_HEADERS:-10000} VERIF_BOUNDED_PATTERNS=${VERIF_BOUNDED_PATTERNS:-400} VERIF_BOUNDED_HISTOGRAMS=${VERIF_BOUNDED_HISTOGRAMS:-60000} VERIF_BOUNDED_BIGCOUNTS=1 VERIF_BOUNDED_WHEADERS=${VERIF_BOUNDED_WHEADERS:-8000} VERIF_BOUNDED_SPLIT_BLOCKS=${VERIF_BOUNDED_SPLIT_BLOCKS:-1500}
+  export VERIF_BOUNDED_COMPLETE_SYMS=${VERIF_BOUNDED_COMPLETE_SYMS:-30} VERIF_BOUNDED_INCOMPLETE_SYMS=${VERIF_BOUNDED_INCOMPLETE_SYMS:-4} VERIF_BOUNDED_RANDOM=${VERIF_BOUNDED_RANDOM:-100000} VERIF_BOUNDED_HEADERS=${VERIF_BOUNDED_HEADERS:-10000} VERIF_BOUNDED_PATTERNS=${VERIF_BOUNDED_PATTERNS:-400} VERIF_BOUNDED_HISTOGRAMS=${VERIF_BOUNDED_HISTOGRAMS:-60000} VERIF_BOUNDED_BIGCOUNTS=1 VERIF_BOUNDED_WHEADERS=${VERIF_BOUNDED_WHEADERS:-8000} VERIF_BOUNDED_SPLIT_BLOCKS=${VERIF_BOUNDED_SPLIT_BLOCKS:-1500} VERIF_BOUNDED_LZ77=${VERIF_BOUNDED_LZ77:-1500}
   to=300s
 fi
 out=$work/out.txt
 s=$(date +%s.%N)
 case "$prop" in
-  C01|C10) pkg="./compress/flate/internal/huffman ./compress/flate/internal/deflate"; run='TestBounded(HuffmanGenerate|HeaderWriter)$'; group=writer ;;
+  C01|C10) pkg="./compress/flate/internal/huffman ./compress/flate/internal/deflate"; run='TestBounded(HuffmanGenerate|HeaderWriter|LZ77)$'; group=writer ;;
   C04)     pkg=./compress/flate; run='TestBoundedSplitDelivery$'; group=split ;;
   *)       pkg=./compress/flate; run='TestBounded(DistTable|ClcTable|HeaderTables|ByteCopy|SplitDelivery)$'; group=tables ;;
 esac
 (cd $repo && go test -overlay $work/overlay.json -vet=off -count=1 -timeout $to -run "$run" -v $pkg) > $out 2>&1
 code=$?
+if [ "$group" = writer ]; then
+  # the match finder harness once more over the pure-Go matcher (the default build of an x86-64 host dispatches to the assembly matchers)
+  (cd $repo && go test -overlay $work/overlay.json -vet=off -count=1 -timeout $to -tags noasmtest -run 'TestBoundedLZ77$' -v ./compress/flate/internal/deflate) >> $out 2>&1 || code=1
+fi
 e=$(date +%s.%N)
 rroot=${VERIF_REPLAY_ROOT:-/verif/replays}; export VERIF_REPLAY_ROOT=$rroot
 mkdir -p $rroot/$prop /verif/evidence
@@ -69,9 +73,9 @@ prop,tier,explored,nfail,wall=sys.argv[1:6]
 p='/verif/evidence/%s.json'%prop
 try: ev=json.load(open(p))
 except Exception: ev={"property_id":prop,"tier":tier,"seed":0,"level":"other","coverage":{},"wall_s":0.0}
-ev.setdefault("coverage",{})["bounded_stand_in"]={"label":"bounded (not proof)","group":os.environ.get("VERIF_BOUNDED_GROUP",""),"what":"(group writer: huffman.Generate + GenerateCode2 on random histograms of 19/30/286 symbols - assumed postcondition, complete prefix-free codes; dynamicHeader.writeTo on random code length vectors - the bits written parse back, with an independent RFC 1951 parser, to the same lengths) (group tables:) genForDists+setCodes on distance code length vectors, GenerateForHeader+setCodes on code length code vectors, and the whole dynamic-header table construction (setupDynamicHeader) on random complete codes in the three multi-symbol modes; real tables compared with canonical decoding and with the contract predicates; variants with incomplete codes parsed over an earlier block's tables against zeroed tables; headers with run-length coded lengths (groups tables and split:) random valid dynamic blocks delivered whole, in two pieces cut at every byte, in three pieces and byte by byte must decode to the standard library's output (bound stated in /verif/bounded/*_test.go)",
+ev.setdefault("coverage",{})["bounded_stand_in"]={"label":"bounded (not proof)","group":os.environ.get("VERIF_BOUNDED_GROUP",""),"what":"(group writer: the match finders behind generate - lz77 and, in the default configuration, the assembly matchers - driven like compressBlock drives them with token limits 4..64 and 32767: appended tokens decode to the bytes consumed, distances within the window, every histogram counter moves by the number of appended tokens with that symbol; huffman.Generate + GenerateCode2 on random histograms of 19/30/286 symbols - assumed postcondition, complete prefix-free codes; dynamicHeader.writeTo on random code length vectors - the bits written parse back, with an independent RFC 1951 parser, to the same lengths) (group tables:) genForDists+setCodes on distance code length vectors, GenerateForHeader+setCodes on code length code vectors, and the whole dynamic-header table construction (setupDynamicHeader) on random complete codes in the three multi-symbol modes; real tables compared with canonical decoding and with the contract predicates; variants with incomplete codes parsed over an earlier block's tables against zeroed tables; headers with run-length coded lengths (groups tables and split:) random valid dynamic blocks delivered whole, in two pieces cut at every byte, in three pieces and byte by byte must decode to the standard library's output (bound stated in /verif/bounded/*_test.go)",
  "explored_inputs":int(explored),"failures":int(nfail),"wall_s":float(wall),
- "bound":{"complete_codes_max_symbols":int(os.environ.get("VERIF_BOUNDED_COMPLETE_SYMS","30")),"incomplete_codes_max_symbols":int(os.environ.get("VERIF_BOUNDED_INCOMPLETE_SYMS","4")),"random_vectors":int(os.environ.get("VERIF_BOUNDED_RANDOM","100000")),"random_headers":int(os.environ.get("VERIF_BOUNDED_HEADERS","10000")),"patterns_per_header":int(os.environ.get("VERIF_BOUNDED_PATTERNS","400")),"histograms":int(os.environ.get("VERIF_BOUNDED_HISTOGRAMS","60000")),"written_headers":int(os.environ.get("VERIF_BOUNDED_WHEADERS","8000")),"split_delivery_blocks":int(os.environ.get("VERIF_BOUNDED_SPLIT_BLOCKS","1500"))}}
+ "bound":{"complete_codes_max_symbols":int(os.environ.get("VERIF_BOUNDED_COMPLETE_SYMS","30")),"incomplete_codes_max_symbols":int(os.environ.get("VERIF_BOUNDED_INCOMPLETE_SYMS","4")),"random_vectors":int(os.environ.get("VERIF_BOUNDED_RANDOM","100000")),"random_headers":int(os.environ.get("VERIF_BOUNDED_HEADERS","10000")),"patterns_per_header":int(os.environ.get("VERIF_BOUNDED_PATTERNS","400")),"histograms":int(os.environ.get("VERIF_BOUNDED_HISTOGRAMS","60000")),"written_headers":int(os.environ.get("VERIF_BOUNDED_WHEADERS","8000")),"split_delivery_blocks":int(os.environ.get("VERIF_BOUNDED_SPLIT_BLOCKS","1500")),"match_finder_inputs":int(os.environ.get("VERIF_BOUNDED_LZ77","1500"))}}
 ev["wall_s"]=round(float(ev.get("wall_s",0))+float(wall),3)
 json.dump(ev,open(p,'w'),indent=1)
 PY
